@@ -107,7 +107,30 @@ func (s *Scenario) starveFamily() (map[string]int, map[string][]int, map[string]
 	return counts, traces, who, n
 }
 
-func (s *Scenario) execStarving(starve string) (*zzvs.Result, string) {
+// suspendFamily runs the scenario once per continuation point of its canonical execution (a goroutine
+// starting, or going on after a rendezvous) with that continuation suspended for as long as anything
+// else can run - in particular while the command returns. What a goroutine does after its last
+// synchronisation with the rest (a deferred Flush, a final write) is thereby ordered after the return
+// of the command in one explored execution each.
+func (s *Scenario) suspendFamily() (map[string]int, map[string][]int, map[string]string, int) {
+	counts, traces, who := map[string]int{}, map[string][]int{}, map[string]string{}
+	r0, _ := s.execFn()(nil)
+	n := 0
+	for _, c := range r0.Continuations {
+		r, obs := s.execPolicy("", c)
+		n++
+		counts[obs]++
+		if _, ok := traces[obs]; !ok {
+			traces[obs] = append([]int(nil), r.Trace...)
+			who[obs] = c
+		}
+	}
+	return counts, traces, who, n
+}
+
+func (s *Scenario) execStarving(starve string) (*zzvs.Result, string) { return s.execPolicy(starve, "") }
+
+func (s *Scenario) execPolicy(starve, suspend string) (*zzvs.Result, string) {
 	var fw *faultWriter
 	var wrap func(io.Writer) io.Writer
 	if s.FaultK > 0 {
@@ -119,15 +142,26 @@ func (s *Scenario) execStarving(starve string) (*zzvs.Result, string) {
 	var buf bytes.Buffer
 	var err error
 	c := s.Call
-	r := zzvs.RunStarving(nil, starve, c.ncpu(), func() {
+	body := func() {
 		var w io.Writer = &buf
 		if wrap != nil {
 			w = wrap(w)
 		}
 		err = c.Run(w)
-	})
+	}
+	var r *zzvs.Result
+	if suspend != "" {
+		gid, k := suspend, 0
+		if i := strings.LastIndex(suspend, "#"); i > 0 {
+			gid = suspend[:i]
+			fmt.Sscan(suspend[i+1:], &k)
+		}
+		r = zzvs.RunSuspending(nil, gid, k, c.ncpu(), body)
+	} else {
+		r = zzvs.RunStarving(nil, starve, c.ncpu(), body)
+	}
 	if r.Outcome == "engine-timeout" {
-		engine.EngineError("watchdog expired in %s (starving %s)", c.Cmd, starve)
+		engine.EngineError("watchdog expired in %s (starving %s suspending %s)", c.Cmd, starve, suspend)
 	}
 	o := Obs{Outcome: r.Outcome, Out: buf.String()}
 	if r.Outcome == "returned" && err != nil {
@@ -254,7 +288,7 @@ func planSched(scens []Scenario, depth int, judge func(sc *Scenario, st *engine.
 		ex := engine.NewExplorer(fn, engine.Opts{P: mode.P, M: mode.M, Unbounded: mode.Unbounded, Delay: mode.Delay})
 		level := [][]int{nil}
 		dsc := depth
-		if dsc > 1 && len(sc.Call.Msa)+len(sc.Call.Sam)+len(sc.Call.Target) > 1500 {
+		if dsc > 1 && len(sc.Call.Msa)+len(sc.Call.Sam)+len(sc.Call.Target) > 600 {
 			dsc = 1 // long executions (large inputs): the parent only splits at the first level
 		}
 		for d := 0; d < dsc; d++ {
@@ -280,6 +314,20 @@ func planSched(scens []Scenario, depth int, judge func(sc *Scenario, st *engine.
 		}
 		ex.St.Execs += nst
 		pre.Count("starvation_schedules", nst)
+		// the suspension family (one execution per continuation point of the canonical execution)
+		sc2, st2, who2, nsu := sc.suspendFamily()
+		for obs, n := range sc2 {
+			key := obs
+			if _, canonical := ex.St.Outcomes[obs]; !canonical {
+				key = obs + "|SUSPENDED " + who2[obs]
+			}
+			ex.St.Outcomes[key] += n
+			if _, ok := ex.St.FirstTrace[key]; !ok {
+				ex.St.FirstTrace[key] = st2[obs]
+			}
+		}
+		ex.St.Execs += nsu
+		pre.Count("suspension_schedules", nsu)
 		accountStats(sc, ex.St, pre)
 		pre.Count("mode_"+mode.String()+"_scenarios", 1)
 		if judge != nil {
@@ -350,9 +398,28 @@ func execSched(scens []Scenario, job string, judge func(sc *Scenario, st *engine
 // schedCase is the replayable form of one execution.
 type schedCase struct {
 	Scenario Scenario `json:"scenario"`
+	Suspend  string   `json:"suspend,omitempty"` // suspension family: "<goroutine id>#<k>", the continuation kept suspended
 	Trace    []int    `json:"trace"`
 	Obs      string   `json:"observed"`
 	Expect   string   `json:"expected,omitempty"`
+}
+
+// suspendOf extracts the suspension policy from an observation key of the suspension family.
+func suspendOf(obs string) string {
+	if i := strings.LastIndex(obs, "|SUSPENDED "); i >= 0 {
+		return obs[i+len("|SUSPENDED "):]
+	}
+	return ""
+}
+
+// replayCase re-executes one recorded execution (trace, or suspension policy).
+func replayCase(c *schedCase) string {
+	if c.Suspend != "" {
+		_, obs := c.Scenario.execPolicy("", c.Suspend)
+		return obs
+	}
+	_, obs := c.Scenario.execFn()(c.Trace)
+	return obs
 }
 
 // ---- generic schedule layer for the input-quantified properties ----
@@ -387,16 +454,36 @@ func canonJudge(prefix string) func(sc *Scenario, st *engine.Stats, res *engine.
 			case strings.HasPrefix(obs, "deadlock"):
 				kind = "deadlock"
 			}
-			res.Violate(prefix+":schedule-dependent-"+kind, fmt.Sprintf("scenario %s: %d explored execution(s) give %.300s; the canonical schedule gives %.300s", sc.Name, n, obs, want), schedCase{Scenario: *sc, Trace: st.FirstTrace[obs], Obs: obs, Expect: want})
+			res.Violate(prefix+":schedule-dependent-"+kind, fmt.Sprintf("scenario %s: %d explored execution(s) give %.300s; the canonical schedule gives %.300s", sc.Name, n, obs, want), schedCase{Scenario: *sc, Trace: st.FirstTrace[obs], Suspend: suspendOf(obs), Obs: obs, Expect: want})
 		}
 	}
 }
 
 // addSchedLayer wraps a property's Plan/Exec with a schedule layer over scens.
 var layerScens []func() []Scenario
+var layerByProp = map[string]func() []Scenario{}
 
 func addSchedLayer(p *Prop, prefix string, scens func() []Scenario) {
 	layerScens = append(layerScens, scens)
+	layerByProp[p.ID] = scens
+	post := p.Post
+	id := p.ID
+	p.Post = func(tier string, total *engine.JobResult) {
+		if post != nil {
+			post(tier, total)
+		}
+		// complementary free-running pass under the Go race detector: each scenario of the layer in its own
+		// cold process (threads 2..16), validating the scheduler's assumption that code between two scheduling
+		// points is goroutine-local
+		var names []string
+		for _, sc := range scens() {
+			if !sc.WriteVisible {
+				names = append(names, sc.Name)
+			}
+		}
+		racePass(id, total, []string{"4"}, names)
+	}
+	p.Assumptions = append(p.Assumptions, "schedule layer: code between two scheduling points is goroutine-local; validated by a free-running -race pass of the layer's scenarios (each in a cold process, threads 2..16), not by the scheduler")
 	var cached []Scenario
 	get := func() []Scenario {
 		if cached == nil {
@@ -438,7 +525,7 @@ func addSchedLayer(p *Prop, prefix string, scens func() []Scenario) {
 			var c schedCase
 			if err := json.Unmarshal([]byte(job[5:]), &c); err == nil && c.Scenario.Name != "" && c.Scenario.Call.Cmd != "" {
 				res := &engine.JobResult{Evals: 1}
-				_, obs := c.Scenario.execFn()(c.Trace)
+				obs := replayCase(&c)
 				if c.Expect != "" && obs != c.Expect {
 					res.Violate(prefix+":schedule-dependent-output", fmt.Sprintf("trace gives %.300s, expected %.300s", obs, c.Expect), c)
 				}
